@@ -8,6 +8,7 @@ package main
 
 import (
 	"bufio"
+	"encoding/hex"
 	"encoding/json"
 	"flag"
 	"fmt"
@@ -354,6 +355,10 @@ func (g *cstGen) comment() string {
 		g.feats["empty_comment"]++
 		return ""
 	}
+	if g.r.Intn(12) == 0 { // a doubled marker or a banner: the comment's own text begins with '#'
+		g.feats["comment_text_starts_with_hash"]++
+		return strings.Repeat("#", 1+g.r.Intn(4)) + []string{"", " heading", "# x #"}[g.r.Intn(3)]
+	}
 	n := 1 + g.r.Intn(10)
 	var b strings.Builder
 	for i := 0; i < n; i++ {
@@ -386,7 +391,11 @@ func (g *cstGen) command(first bool) string {
 		}
 		b.WriteString(f)
 	} else {
-		b.WriteString([]string{"l", "-", "$", "e", "\"", "x", "/", "."}[g.r.Intn(8)])
+		st := []string{"l", "-", "$", "e", "\"", "x", "/", ".", "{{.X}}", "{{ .NAME }}", "{x", "é{{.X}}"}[g.r.Intn(12)]
+		if strings.HasPrefix(st, "{") {
+			g.feats["later_command_starts_with_brace_or_interpolation"]++
+		}
+		b.WriteString(st)
 	}
 	n := g.r.Intn(10)
 	for i := 0; i < n; i++ {
@@ -572,13 +581,14 @@ func (g *cstGen) file() cFile {
 }
 
 type cstStats struct {
-	Cases      int            `json:"cases"`
-	Nontrivial int            `json:"distinct_nontrivial"`
-	Features   map[string]int `json:"layout_features"`
-	Stmts      map[string]int `json:"statements_per_file"`
-	Outcomes   map[string]int `json:"impl_outcomes"`
-	Samples    []string       `json:"samples"`
-	OracleFail map[string]int `json:"oracle_failures"`
+	Cases        int            `json:"cases"`
+	Nontrivial   int            `json:"distinct_nontrivial"`
+	Features     map[string]int `json:"layout_features"`
+	Stmts        map[string]int `json:"statements_per_file"`
+	Outcomes     map[string]int `json:"impl_outcomes"`
+	Samples      []string       `json:"samples"`
+	OracleFail   map[string]int `json:"oracle_failures"`
+	CommentItems int            `json:"comment_and_docstring_items_checked_textually"`
 }
 
 func cstCmd(args []string) error {
@@ -647,6 +657,18 @@ func cstCmd(args []string) error {
 		if len(f.stmts) >= 2 {
 			st.Nontrivial++
 		}
+		// C15, judged on the text alone: the comments and docstrings read off the formatted text (by a scanner that knows
+		// nothing of spok's lexer) are the ones this structure was written with, in the same places
+		if ok && strings.HasPrefix(got, "T ") && len(fieldsOf(resp)) >= 3 {
+			if fb, err := hex.DecodeString(fieldsOf(resp)[2]); err == nil {
+				wantC, gotC := f.commentSeq(), scanFormatted(string(fb))
+				st.CommentItems += len(wantC)
+				if strings.Join(wantC, "\x1f") != strings.Join(gotC, "\x1f") {
+					st.OracleFail["C15"]++
+					fmt.Fprintf(bo, "C15 %s the formatted text %q carries the comments/docstrings %q, the file was written with %q\n", hx(text), string(fb), gotC, wantC)
+				}
+			}
+		}
 		if got != want {
 			st.OracleFail["C06"]++
 			fmt.Fprintf(bo, "C06 %s parsing the text written from this structure gives %s, the structure written is %s\n", hx(text), got, want)
@@ -663,6 +685,100 @@ func cstCmd(args []string) error {
 	fo.Close()
 	sj, _ := json.Marshal(st)
 	return os.WriteFile(filepath.Join(*out, fmt.Sprintf("stats.%d.json", *shard)), sj, 0o644)
+}
+
+func fieldsOf(resp string) []string { return strings.Split(strings.SplitN(resp, "\t", 2)[0], " ## ") }
+
+// commentSeq: what the file was written with - C:<text> for a non-empty comment, T:<name>:<docstring or -> per task, A per assignment
+func (f cFile) commentSeq() []string {
+	var l []string
+	for _, s := range f.stmts {
+		switch s.kind {
+		case 'C':
+			if t := strings.TrimSpace(s.text); t != "" {
+				l = append(l, "C:"+t)
+			}
+		case 'T':
+			d := "-"
+			if s.hasDoc {
+				d = "+" + strings.TrimSpace(s.doc)
+			}
+			l = append(l, "T:"+s.name+":"+d)
+		default:
+			l = append(l, "A")
+		}
+	}
+	return l
+}
+
+// scanFormatted reads the same sequence off formatted text, knowing only its layout: a statement starts in column 0; a
+// comment is a line starting with '#'; a task header runs to the first '{' outside quotes and its body to the next line
+// that is exactly "}"; an assignment runs to the end of the line outside quotes; a comment line directly above a task
+// header is that task's docstring.
+func scanFormatted(t string) []string {
+	var l []string
+	pending, havePending := "", false
+	flush := func() {
+		if havePending && pending != "" {
+			l = append(l, "C:"+pending)
+		}
+		havePending = false
+	}
+	i := 0
+	for i < len(t) {
+		switch {
+		case t[i] == '\n':
+			i++
+			if havePending { // a blank line separates: the comment above stands alone
+				flush()
+			}
+		case t[i] == '#':
+			flush()
+			j := strings.IndexByte(t[i:], '\n')
+			if j < 0 {
+				j = len(t) - i
+			}
+			line := t[i+1 : i+j]
+			pending, havePending = strings.TrimSpace(line), line != ""
+			i += j + 1
+			if i > len(t) {
+				i = len(t)
+			}
+		case strings.HasPrefix(t[i:], "task "):
+			j, inStr := i+5, false
+			for j < len(t) && (inStr || t[j] != '{') {
+				if t[j] == '"' {
+					inStr = !inStr
+				}
+				j++
+			}
+			name := strings.TrimSpace(strings.SplitN(t[i+5:j], "(", 2)[0])
+			d := "-"
+			if havePending {
+				d = "+" + pending
+				havePending = false
+			}
+			l = append(l, "T:"+name+":"+d)
+			if k := strings.Index(t[j:], "\n}\n"); k >= 0 {
+				i = j + k + 3
+			} else {
+				i = len(t)
+			}
+		default:
+			flush()
+			j, inStr := i, false
+			for j < len(t) && (inStr || t[j] != '\n') {
+				if t[j] == '"' {
+					inStr = !inStr
+				}
+				j++
+			}
+			l = append(l, "A")
+			i = j + 1
+		}
+	}
+	flush()
+	return l
 }
 
 // fmtCLI: `spok --fmt` itself (C07 is about the command that overwrites the user's file, not only about Tree.String()).
